@@ -189,7 +189,7 @@ func recordSites(in *inst.Instance, face engine.Face) ([]siteInfo, error) {
 		}
 		s.Seqs = append(s.Seqs, ev.Seq)
 	}})
-	if res.Verdict != engine.Accept {
+	if !res.AcceptedHonestly() {
 		return nil, fmt.Errorf("recording run failed: %s", res)
 	}
 	var out []siteInfo
